@@ -85,7 +85,7 @@ impl Prop for Handshake {
         "handshake"
     }
     fn cases(&self, tier: Tier) -> u64 {
-        tier.pick(150_000, 3_000_000)
+        tier.pick(150_000, 1_000_000)
     }
     fn strategy(&self, tier: Tier) -> BoxedStrategy<HCase> {
         let p = Profile::all();
@@ -289,7 +289,7 @@ impl Prop for AwarenessLww {
         "awareness"
     }
     fn cases(&self, tier: Tier) -> u64 {
-        tier.pick(500_000, 12_000_000)
+        tier.pick(500_000, 4_000_000)
     }
     fn strategy(&self, _tier: Tier) -> BoxedStrategy<ACase> {
         let step = prop_oneof![
